@@ -267,9 +267,53 @@ def probe_relocated_name(ctx):
         shutil.rmtree(tmpdir, ignore_errors=True)
 
 
+def probe_refused_links(ctx):
+    """Rock Ridge link counts after REFUSED edits: a tree is built twice, once with refused add_directory / add_symlink /
+    add_hard_link calls in between (names far too long for a continuation area, duplicates); both images must be identical —
+    in particular the PX link counts of the parents that the refused calls named"""
+    import pycdlib
+    big = 'x' * 3000
+    for ver in ('1.09', '1.12'):
+        imgs = []
+        for attempts in (False, True):
+            with isoapi.frozen_time():
+                iso = pycdlib.PyCdlib()
+                iso.new(rock_ridge=ver)
+                iso.add_directory('/D1', rr_name='d1')
+                iso.add_directory('/D1/D2', rr_name='d2')
+                iso.add_fp(io.BytesIO(b'f'), 1, '/D1/F.;1', rr_name='f')
+                if attempts:
+                    tries = [lambda: iso.add_directory('/D1/BIG', rr_name=big), lambda: iso.add_directory('/BIG', rr_name=big),
+                             lambda: iso.add_directory('/D1/D2/BIG', rr_name=big), lambda: iso.add_directory('/D1/D3', rr_name='d2'),
+                             lambda: iso.add_symlink('/D1/S.;1', rr_symlink_name=big, rr_path='t'),
+                             lambda: iso.add_hard_link(iso_old_path='/D1/F.;1', iso_new_path='/D1/G.;1', rr_name=big)]
+                    for k, t in enumerate(tries):
+                        try:
+                            t()
+                            ctx.dist['refused-links:accepted:%d' % k] += 1
+                            imgs = None
+                            break
+                        except Exception as e:  # noqa
+                            ctx.dist['refused-links:%s' % isoapi.exc_class(e)] += 1
+                if imgs is None:
+                    break
+                iso.add_directory('/D1/D4', rr_name='d4')
+                out = io.BytesIO()
+                iso.write_fp(out)
+                iso.close()
+                imgs.append(out.getvalue())
+        ctx.count(key=('refused-links', ver), nontrivial=True, kind='probe')
+        if imgs and len(imgs) == 2 and imgs[0] != imgs[1]:
+            d = next((i for i in range(min(map(len, imgs))) if imgs[0][i] != imgs[1][i]), -1)
+            ctx.violation('C08.links/after-refusal', 'Rock Ridge %s: refused add_directory / add_symlink / add_hard_link calls changed the image '
+                          '(first difference at byte %d, sector %d offset %d: %s vs %s) — link counts of the named parents'
+                          % (ver, d, d // 2048, d % 2048, imgs[0][d - 4:d + 4].hex(), imgs[1][d - 4:d + 4].hex()), {'kind': 'probe-refused-links'})
+
+
 def run(ctx):
     run_fn(ctx)
     probe_relocated_name(ctx)
+    probe_refused_links(ctx)
     force = {'rr': None}
     import functools
     # Rock Ridge always on, all three versions
@@ -289,6 +333,9 @@ def replay(ctx, obj):
         b = ctx.driver.ask([r['request']])[0]
         core.log('model:', b)
         return [obj.get('signature', 'C08.fn')]
+    if r.get('kind') == 'probe-refused-links':
+        probe_refused_links(ctx)
+        return [v['signature'] for v in ctx.violations]
     if r.get('kind') == 'probe-relocated-name':
         probe_relocated_name(ctx)
         return [v['signature'] for v in ctx.violations]
